@@ -373,7 +373,18 @@ class CTranslator:
                 else:
                     raise AnalysisError(f"{self.where}: unsupported C lvalue {cast.text(lhs)}")
                 continue
+            if k == "CompoundAssignOperator":
+                lhs = cast.strip(ks[0])
+                key = lhs["referencedDecl"]["name"] if lhs.get("kind") == "DeclRefExpr" else cast.text(lhs)
+                cur = env[key] if key in env else self.expr(ks[0], env)
+                v = self.expr(ks[1], env)
+                op = s.get("opcode")
+                env[key] = {"+=": cur + v, "-=": cur - v, "*=": cur * v, "/=": cur / v}[op]
+                continue
             if k == "ReturnStmt":
+                if not ks:
+                    out.append(Branch(conds, sp.Integer(0), dict(env)))
+                    return True
                 out.append(Branch(conds, self.expr(ks[0], env), dict(env)))
                 return True
             if k == "CompoundStmt":
